@@ -365,6 +365,17 @@ class Ev:
           rel = '∈' if isinstance(g.elt.ops[0], ast.In) else '∉'
           return BoolV(atom('%s[· %s %s]' % (f.id.upper(), rel, sv.f)))
       return BoolV(atom('%s[%s]' % (f.id.upper(), core.norm(e.args[0]))))
+    if isinstance(f, ast.Name) and f.id == 'sum' and len(e.args) == 1 and isinstance(
+        e.args[0], (ast.GeneratorExp, ast.ListComp)) and isinstance(
+            e.args[0].elt, ast.Constant) and e.args[0].elt.value == 1 and \
+        len(e.args[0].generators) == 1 and isinstance(e.args[0].generators[0].target, ast.Name):
+      # sum(1 for v in S if c)  ==  len({v for v in S if c})  for S without duplicates
+      g = e.args[0].generators[0]
+      v = self.comprehension(ast.SetComp(elt=ast.Name(id=g.target.id, ctx=ast.Load()),
+                                         generators=[g]), env, depth)
+      if isinstance(v, SetV):
+        return CountV(v.f)
+      return Opaque(core.norm(e))
     if isinstance(f, ast.Name) and f.id == 'len':
       if len(e.args) == 1:
         v = self.ev(e.args[0], env, depth)
